@@ -204,6 +204,7 @@ class Outcome:
         self.assumptions = []
         self.t0 = time.time()
         self.replay_n = 0
+        self.sampled = []      # names of stages whose traces come from a seeded random recorder (not an enumeration)
 
     def add_violation(self, v, stage, profile, kind):
         known = [k for k in load_known() if k.get("property") == self.prop and k.get("kind") == "known"]
@@ -238,9 +239,15 @@ class Outcome:
             "transitions": max(self.transitions, 0),
             "traces_validated_against_impl": self.validated,
             "samples": self.samples[:4] if self.samples else [{"note": "no sample recorded"}],
-            "exhaustive": True,
-            "rule": rule or "TLC enumerates every history of the bounded model (constants per stage below); "
-                    "each transition is replayed on the real code in both build profiles",
+            # the bounded models are enumerated completely by TLC, and every enumerated transition / scenario is executed
+            # on the code; stages fed by a seeded random recorder are samples, and then the run as a whole is not
+            "exhaustive": not self.sampled,
+            "model_stages_exhaustive": True,
+            "sampled_stages": sorted(set(self.sampled)),
+            "rule": (rule or "TLC enumerates every history of the bounded model (constants per stage below); "
+                     "each transition is replayed on the real code in both build profiles") +
+                    ("; the stages listed under sampled_stages validate traces recorded from seeded random histories "
+                     "(VERIF_SEED) against the trace specifications - samples, not an enumeration" if self.sampled else ""),
             "judged_cases": self.judged,
             "stages": self.stages,
         }
@@ -383,6 +390,8 @@ def validate_traces(out, name, trace_module, trace_cfg, jobs, why_filter=lambda 
             log("\n".join(tail[-40:]))
             raise ToolError("trace %s was not consumed completely (%s of %d events): the trace specification or the "
                             "recorder is broken" % (j["label"], done, j["events"]))
+        if j.get("regen") or j.get("random"):
+            out.sampled.append(name)
         runs = j["events"] if j.get("runs_are_lines") else sum(1 for l in open(j["trace"]) if '"ev":"reset"' in l)
         out.validated += runs
         out.judged += j["events"]
@@ -483,7 +492,7 @@ def huffman_property(out, q, seed, why_filter):
                     str(40 if q else 400), "--ty", ty, "--out", g])
         if rc != 0:
             raise ToolError("huff-gen failed")
-        jobs += huffman_jobs(out, "random", g, tys=(ty,), nslots=3)
+        jobs += [dict(j, random=True) for j in huffman_jobs(out, "random", g, tys=(ty,), nslots=3)]
     validate_traces(out, "random-traces", "TraceHuffman.tla", tcfg, jobs, why_filter)
     for j in glob.glob(os.path.join(wd, "*.ndjson")):
         os.remove(j)
@@ -548,7 +557,7 @@ def string_codec_stage(out, q, seed):
         if rc != 0:
             log(o[-2000:])
             raise ToolError("dict-run --as-str failed")
-        jobs.append({"label": "str-" + prof, "trace": tr, "scenarios": g, "profile": profile_label(prof),
+        jobs.append({"random": True, "label": "str-" + prof, "trace": tr, "scenarios": g, "profile": profile_label(prof),
                      "replay": "dictionary-str", "sigprefix": "string-codec"})
     validate_traces(out, "string-codec-traces", "TraceDict.tla", os.path.join(SPEC, "TraceDict.cfg"), jobs,
                     err_filter=lambda e: e["why"] in ("read-failed", "read-back-differs", "earlier-item-changed"), timeout=3000)
@@ -689,7 +698,7 @@ def dictionary_property(out, q, seed):
     rc, o = sh([BIN["release"], "dict-gen", "--seed", str(seed * 1000 + 7), "--count", str(36 if q else 240), "--out", g])
     if rc != 0:
         raise ToolError("dict-gen failed")
-    validate_traces(out, "random-traces", "TraceDict.tla", tcfg, dict_jobs(out, "random", g, 5), timeout=3000)
+    validate_traces(out, "random-traces", "TraceDict.tla", tcfg, [dict(j, random=True) for j in dict_jobs(out, "random", g, 5)], timeout=3000)
     for j in glob.glob(os.path.join(wd, "*.ndjson")):
         os.remove(j)
     summary_stage(out, q, seed)
@@ -704,7 +713,7 @@ def dictionary_random_stage(out, q, seed, err_filter, name):
     rc, o = sh([BIN["release"], "dict-gen", "--seed", str(seed * 1000 + 7), "--count", str(36 if q else 240), "--out", g])
     if rc != 0:
         raise ToolError("dict-gen failed")
-    validate_traces(out, name + "-traces", "TraceDict.tla", os.path.join(SPEC, "TraceDict.cfg"), dict_jobs(out, name, g, 5),
+    validate_traces(out, name + "-traces", "TraceDict.tla", os.path.join(SPEC, "TraceDict.cfg"), [dict(j, random=True) for j in dict_jobs(out, name, g, 5)],
                     timeout=3000, err_filter=err_filter)
     for j in glob.glob(os.path.join(wd, "*.ndjson")):
         os.remove(j)
@@ -720,7 +729,7 @@ def huffman_random_stage(out, q, seed, err_filter, name):
                     str(40 if q else 300), "--ty", ty, "--out", g] + (["--small"] if q else []))
         if rc != 0:
             raise ToolError("huff-gen failed")
-        jobs += huffman_jobs(out, name, g, tys=(ty,), nslots=3)
+        jobs += [dict(j, random=True) for j in huffman_jobs(out, name, g, tys=(ty,), nslots=3)]
     validate_traces(out, name + "-traces", "TraceHuffman.tla", os.path.join(SPEC, "TraceHuffman.cfg"), jobs, err_filter=err_filter)
     for j in glob.glob(os.path.join(wd, "*.ndjson")):
         os.remove(j)
@@ -737,7 +746,7 @@ def huffman_cmp_stage(out, q, seed):
                     str(60 if q else 400), "--ty", ty, "--out", g, "--mode", "cmp"])
         if rc != 0:
             raise ToolError("huff-gen failed")
-        jobs += huffman_jobs(out, "cmp", g, tys=(ty,), nslots=3)
+        jobs += [dict(j, random=True) for j in huffman_jobs(out, "cmp", g, tys=(ty,), nslots=3)]
     validate_traces(out, "huffman-cmp-traces", "TraceHuffman.tla", tcfg, jobs, lambda w: w.startswith("cmp"))
     for j in glob.glob(os.path.join(wd, "*.ndjson")):
         os.remove(j)
